@@ -140,6 +140,9 @@ fn parse_prefix(name: &str, fragment: &yaml::Yaml) -> Result<Option<Prefix>, Err
     }
 }
 
+/// The most recursive DNS server addresses that fit in one RDNSS option (RFC8106 Section 5.1).
+pub const MAX_RDNSS_ADDRESSES: usize = 127;
+
 fn parse_rdnss(
     name: &str,
     fragment: &yaml::Yaml,
@@ -156,8 +159,15 @@ fn parse_rdnss(
         for (k, v) in h {
             match (k.as_str(), v) {
                 (Some("addresses"), a) => {
-                    address =
-                        ConfigValue::from_option(parse_array("addresses", a, parse_string_ip6)?)
+                    let addresses = parse_array("addresses", a, parse_string_ip6)?;
+                    /* The length of the RDNSS option is an octet, counting units of 8 octets */
+                    if addresses.as_ref().is_some_and(|v| v.len() > MAX_RDNSS_ADDRESSES) {
+                        return Err(Error::InvalidConfig(format!(
+                            "{} has more than {} addresses",
+                            name, MAX_RDNSS_ADDRESSES
+                        )));
+                    }
+                    address = ConfigValue::from_option(addresses)
                 }
                 (Some("lifetime"), d) => {
                     lifetime = ConfigValue::from_option(parse_duration("lifetime", d)?)
